@@ -14,7 +14,7 @@ func init() {
 	register(&propDef{
 		ID:  "C10",
 		Run: runC10,
-		Explain: "Decided: (a) probe soundness: in every stage closure of pkg/expressions/** every ambient read (clock, random source, environment, files, package variables that are written at run time outside program start-up) - directly or through repository helpers - is dominated by a touch of the closure's own context (a GetMatch/GetKey call or the evaluation of an argument stage with that context), so the lookup-counting probe classifies the stage as dynamic; ambient reads in the factory (compile time) are allowed; (b) the probe counts: both monitorContext methods count unconditionally, EvalStaticStage reports ok exactly when the count is zero, and every caller uses the value only where ok is known true (and never discards ok); optimize folds only under ok; (c) the switch is wired: Compile optimises only under the builder's autoOptimize field, which is set only from the constructor argument, and the CLI passes !noOptimize; (d) pooled contexts of user functions and array helpers are re-bound to the caller's context before use, returned by a deferred call (never while still in use); the lazy argument context forwards keys to the caller's context and evaluates the caller's arguments with it; (e) funcs-file definitions are registered into the very builder that compiles later definitions, and the shared table is installed after the built-ins. " +
+		Explain: "Decided: (a) probe soundness: in every stage closure of pkg/expressions/** every ambient read (clock, random source, environment, files, package variables that are written at run time outside program start-up) - directly or through repository helpers - is dominated by a touch of the closure's own context (a GetMatch/GetKey call or the evaluation of an argument stage with that context), so the lookup-counting probe classifies the stage as dynamic; ambient reads in the factory (compile time) are allowed; (b) the probe counts: both monitorContext methods count unconditionally, EvalStaticStage reports ok exactly when the count is zero, and every caller uses the value only where ok is known true (and never discards ok); optimize folds only under ok; (c) the switch is wired: Compile optimises only under the builder's autoOptimize field, which is set only from the constructor argument, and the CLI passes !noOptimize; (d) pooled contexts of user functions and array helpers are re-bound to the caller's context before use, returned by a deferred call (never while still in use); the lazy argument context forwards keys to the caller's context and evaluates the caller's arguments with it; (e) funcs-file definitions are registered into the very builder that compiles later definitions, and the shared table is installed after the built-ins. (f) the formula engine's constant folding obeys the same probe discipline (C19-c rules); pooled contexts are returned at most once. " +
 			"NOT decided: value equivalence of a call with its substituted body for every body/argument pair, the funcs-file lexical layer (comments/continuations), stages that read ambient state through interfaces the call graph cannot resolve.",
 		Assume: []string{"package variables written only from main/cmd start-up code are constant during evaluation"},
 	})
